@@ -153,6 +153,7 @@ type c06Fix struct {
 	logs  map[string][]string // notifier -> "type:ref"
 	want  map[string][]string
 
+	known   map[hash.SHA256Hash][]byte // payload hash -> bytes of every payload the generator made (stored or not)
 	last    c06Dump
 	ntfs    []Notifier
 	offers  int
@@ -194,7 +195,7 @@ func (f *c06Fix) close() {
 func c06NewFixAt(x *h.Ctx, dir string, shapeRes *vdKeyResolver) *c06Fix {
 	c06Quiet()
 	f := &c06Fix{x: x, ctx: context.Background(), ref: vdNewRef(), pay: map[hash.SHA256Hash][]byte{}, withPay: map[hash.SHA256Hash]bool{},
-		logs: map[string][]string{}, want: map[string][]string{}, bar: &c06Barrier{},
+		logs: map[string][]string{}, want: map[string][]string{}, bar: &c06Barrier{}, known: map[hash.SHA256Hash][]byte{},
 		res: &c06Resolver{recs: map[string]c06KeyRecord{}, shape: shapeRes}}
 	kv, err := vdOpenKV(dir)
 	x.NoErr(err, "open kv")
@@ -208,7 +209,7 @@ func c06NewFixAt(x *h.Ctx, dir string, shapeRes *vdKeyResolver) *c06Fix {
 	rec := func(name string, fatal bool) ReceiverFn {
 		return func(e Event) (bool, error) {
 			f.logMu.Lock()
-			f.logs[name] = append(f.logs[name], e.Type+":"+e.Hash.String())
+			f.logs[name] = append(f.logs[name], c06LogEntry(e.Type, e.Hash, e.Payload))
 			f.logMu.Unlock()
 			if fatal {
 				return false, EventFatal{Err: errors.New("verif: receiver refuses")}
@@ -230,6 +231,14 @@ func c06NewFixAt(x *h.Ctx, dir string, shapeRes *vdKeyResolver) *c06Fix {
 	return f
 }
 
+// c06LogEntry is what a subscriber saw: event type, transaction, and WHICH bytes it was handed as the payload.
+func c06LogEntry(typ string, ref hash.SHA256Hash, payload []byte) string {
+	if payload == nil {
+		return typ + ":" + ref.String() + ":no-payload"
+	}
+	return typ + ":" + ref.String() + ":payload=" + hash.SHA256Sum(payload).String()
+}
+
 // modelAdd records an admission in the reference model.
 func (f *c06Fix) modelAdd(tx Transaction, payload []byte) {
 	f.ref.add(tx)
@@ -237,14 +246,14 @@ func (f *c06Fix) modelAdd(tx Transaction, payload []byte) {
 	if len(tx.Previous()) == 0 {
 		f.hasRoot = true
 	}
-	r := tx.Ref().String()
-	f.want[c06NotMem] = append(f.want[c06NotMem], TransactionEventType+":"+r)
-	f.want[c06NotTx] = append(f.want[c06NotTx], TransactionEventType+":"+r)
+	// subscribers are handed the bytes that were supplied, which (validity predicate) hash to the declared payload hash
+	f.want[c06NotMem] = append(f.want[c06NotMem], c06LogEntry(TransactionEventType, tx.Ref(), payload))
+	f.want[c06NotTx] = append(f.want[c06NotTx], c06LogEntry(TransactionEventType, tx.Ref(), payload))
 	if payload != nil {
-		f.pay[hash.SHA256Sum(payload)] = payload
+		f.pay[tx.PayloadHash()] = payload
 		f.withPay[tx.Ref()] = true
-		f.want[c06NotMem] = append(f.want[c06NotMem], PayloadEventType+":"+r)
-		f.want[c06NotPay] = append(f.want[c06NotPay], PayloadEventType+":"+r)
+		f.want[c06NotMem] = append(f.want[c06NotMem], c06LogEntry(PayloadEventType, tx.Ref(), payload))
+		f.want[c06NotPay] = append(f.want[c06NotPay], c06LogEntry(PayloadEventType, tx.Ref(), payload))
 	}
 }
 
